@@ -140,6 +140,17 @@ def holdTokens : List Nat :=
     if i.fns.any fun f => f.callees.any fun c => releaseOps.contains c then some i.selfTy.head else none
   base ++ (structs.filter fun s => !s.isEnum && s.fields.any fun f => base.contains f.ty.head && !f.ty.isRef).map (·.name)
 
+/-- the key-less hold tokens (the structs whose `Drop` releases a raw lock) get their `Send`-ness
+from the raw lock's `GuardMarker` (`GuardNoSend` for parking_lot): each must carry a
+`PhantomData<R::GuardMarker>` field — any other marker type silently changes the auto traits -/
+def c15_holdTokenMarkers : List Nat :=
+  let base := (implsOfTrait Sym.Drop).filterMap fun i =>
+    if i.fns.any fun f => f.callees.any fun c => releaseOps.contains c then some i.selfTy.head else none
+  (structs.filter fun s => base.contains s.name &&
+    !(s.fields.any fun f => match f.ty with
+      | .path n [.assoc _ a _] => n == Sym.PhantomData && a == Sym.GuardMarker
+      | _ => false)).map (·.name)
+
 /-- a hold must not be duplicable or conjurable: no `Clone`/`Copy`/`Default` for a hold token -/
 def c14_holdTokenImpls : List (Nat × Nat) :=
   (impls.filterMap fun i =>
